@@ -329,3 +329,5 @@ mut("attr-union-by-value-only", "C16", "yrs/src/id_map.rs", "            if !sel
 mut("attr-union-benign-any-eq", "C16", "yrs/src/id_map.rs", "            if !self.0.contains(attr) {\n                self.0.push(attr.clone());", "            if !self.0.iter().any(|a| a == attr) {\n                self.0.push(attr.clone());", "", kind="benign")
 mut("same-item-offset-tests-anchor", "C14", "yrs/src/sticky_index.rs", "                                    if !item.is_deleted() && item.is_countable() {\n                                        index += item.content_len(encoding);",
     "                                    if !right.ptr.is_deleted() && item.is_countable() {\n                                        index += item.content_len(encoding);", "liveness", also=["C17"])
+mut("scan-benign-undo-stack-find", "C12", UN, "        for item in self.0.iter() {\n            if item.deletions.contains(id) {\n                return true;\n            }\n        }\n        false",
+    "        self.0.iter().find(|item| item.deletions.contains(id)).is_some()", "", kind="benign")
